@@ -7,6 +7,7 @@ CONSTANTS
  Names <- NamesH
  Fills <- FillsQ
  EmitOn = FALSE
+ LookupsAnywhere = FALSE
 VIEW View
 INVARIANTS NoOob CursorInside Latch NeutralWhenErr FreshAfterInit Work WorkLookup
 CHECK_DEADLOCK FALSE
